@@ -14,6 +14,12 @@ def parseF32 (s : String) : Float32 :=
 /-- `(size_t)(top_page_size * exp_factor)` -/
 def growF (f : Float32) (c : Nat) : Nat := (Float32.ofNat c * f).toUInt64.toNat
 
+/-- FNV-1a 64 over the UTF-8 text of a list as the full mode prints it (pages above 4096 bytes) -/
+def fnvList (xs : List Nat) : String :=
+  let text := ",".intercalate (xs.map toString)
+  let h := text.toUTF8.foldl (fun (h : UInt64) b => (h ^^^ b.toUInt64) * 1099511628211) 14695981039346656037
+  s!"#{h.toNat}"
+
 /-- the harness "user": remembers every allocation result (for `free idx=k`) and dirties every
 block with a running non-zero pattern -/
 structure User where
@@ -30,6 +36,7 @@ structure Sess where
   us    : User := {}
   sparse : Bool := false  -- obs=sparse: used/free are printed by `observe` only
   blind : Bool := false   -- the spec has given no opinion on an earlier request: no S lines any more
+  acct  : Option DynamicPool.Acct := none   -- phys=quiet: the session runs on the accounting-only twin
 
 def freshByte : Nat := 238
 
@@ -48,7 +55,8 @@ def phys (dflt : Bool) (r : Option DynamicPool) : String :=
     let pgs := r.pages.reverse
     let head := s!"fixed={b01 r.isFixed} packed={b01 r.isPacked} ab={r.ab} tps={r.topPageSize} free={r.free} high={r.high} sizes={fmtList (pgs.map (·.size))}"
     if dflt then head else
-    head ++ String.join ((List.range pgs.length).zipWith (fun i p => s!" pg{i}={fmtList p.bytes}") pgs)
+    head ++ String.join ((List.range pgs.length).zipWith (fun i p =>
+      s!" pg{i}={if p.size > 4096 then fnvList p.bytes else fmtList p.bytes}") pgs)
 def inv (r : Option DynamicPool) : Bool := match r with | none => true | some r => decide r.Inv
 
 def lineS' (full : Bool) (hd : String) (s : Sess) : String :=
@@ -96,6 +104,75 @@ def afterAllocS (s : Sess) (q : Option (Nat × Nat)) (f : Spec.DPool) (n : Nat) 
 
 def stOf (p : Option (Nat × Nat)) (refused : Bool) : String := if refused && p.isNone then "st=1" else "st=-"
 
+/-! ### `phys=quiet` sessions (pages of many megabytes)
+
+The session runs on `DynamicPool.Acct`, the model without page contents (`Proofs/DynamicPoolAcct.lean`
+proves that it returns the pointers, ledger and fields of the full model), and the phys section
+carries no page dump.  The spec line is derived from the same run (the refinement theorems of C13
+say the spec agrees with the model), except where the spec has no opinion. -/
+def physA (a : DynamicPool.Acct) : String :=
+  s!"fixed={b01 a.isFixed} packed={b01 a.isPacked} ab={a.ab} tps={a.topPageSize} free={a.free} high={a.high} sizes={fmtList a.sizes.reverse}"
+def invA (a : DynamicPool.Acct) : Bool :=
+  a.high ≤ a.free && a.free ≤ a.topPageSize && a.sizes.headD 0 == a.topPageSize && !a.sizes.isEmpty &&
+  a.sizes.all (· ≤ Spec.pageLimit) && (!a.isFixed || a.sizes.length == 1)
+def obsA (a : DynamicPool.Acct) : String := s!" used={a.usedBytes} free={a.freeBytes}"
+def noOpinionA (grow : Nat → Nat) (a : DynamicPool.Acct) (n : Nat) : Bool :=
+  let span := n + Spec.padOf a.isPacked a.ab n
+  n ≥ a.topPageSize &&
+    (span ≤ a.topPageSize - a.free || (!a.isFixed && span ≤ grow a.topPageSize && grow a.topPageSize ≤ Spec.pageLimit))
+
+def linesA (full : Bool) (hdS hdM : String) (s : Sess) (a : DynamicPool.Acct) : String × String :=
+  let obs := if full then obsA a else ""
+  ((if s.blind then "S ? no opinion since a request equal to the page size" else s!"S {hdS}{obs}"),
+   s!"M {hdM}{obs} | {physA a} | {fmtMem s.mem} | {fmtFlags (invA a) s.mem}")
+
+def stepQuiet (s : Sess) (c : Cmd) (a : DynamicPool.Acct) (m : Mem) : Sess × String × String :=
+  let grow := growF s.exp
+  match c.op with
+  | "observe" =>
+    let s' : Sess := { s with mem := m }
+    let l := linesA true "st=-" "st=-" s' a
+    (s', l.1, l.2)
+  | "malloc" =>
+    let n := c.arg 0
+    let (p, a', m) := DynamicPool.Acct.malloc grow a n m
+    let hdM := stOf p (m.nrefused > 0) ++ fmtPtr p
+    let hdS := stOf p (c.fired > 0) ++ fmtPtr p
+    -- the user dirties the block when it lies inside the newest page
+    let wrote := match p with | some x => decide (x.2 + n ≤ a'.topPageSize) | none => false
+    let m := match p with | some x => if wrote then a'.write x.2 n m else m | none => m
+    let s' : Sess := { s with acct := some a', mem := m, um := note s.um p wrote, blind := s.blind || noOpinionA grow a n }
+    let l := linesA (!s.sparse) hdS hdM s' a'
+    (s', l.1, l.2)
+  | "calloc" =>
+    let x := c.arg 0; let y := c.arg 1
+    let n := (x * y) % sizeMod
+    let (p, a', m) := DynamicPool.Acct.calloc grow a x y m
+    let z := if p.isSome then " zero=1" else ""
+    let hdM := stOf p (m.nrefused > 0) ++ fmtPtr p ++ z
+    let hdS := stOf p (c.fired > 0) ++ fmtPtr p ++ z
+    let wrote := match p with | some q => decide (q.2 + n ≤ a'.topPageSize) | none => false
+    let m := match p with | some q => if wrote then a'.write q.2 n m else m | none => m
+    let s' : Sess := { s with acct := some a', mem := m, um := note s.um p wrote, blind := s.blind || noOpinionA grow a (x * y) }
+    let l := linesA (!s.sparse) hdS hdM s' a'
+    (s', l.1, l.2)
+  | "free" =>
+    let pm := freeArg c s.um (some (a.sizes.length - 1, 0))
+    let a' := a.release pm
+    let s' : Sess := { s with acct := some a', mem := m }
+    let l := linesA (!s.sparse) "st=-" "st=-" s' a'
+    (s', l.1, l.2)
+  | "pool_reset" =>
+    let (a', m) := a.reset m
+    let s' : Sess := { s with acct := some a', mem := m, um := forget s.um }
+    let l := linesA (!s.sparse) "st=-" "st=-" s' a'
+    (s', l.1, l.2)
+  | "destroy" =>
+    let m := a.destroy m
+    let s' : Sess := { mem := m }
+    (s', (if s.blind then "S ?" else "S st=-"), s!"M st=- | - | {fmtMem m} | {fmtFlags true m}")
+  | _ => (s, "S st=- badop", "M st=- badop")
+
 def step (s : Sess) (c : Cmd) : Sess × String × String :=
   let m := s.mem.begin c.sched
   match c.op with
@@ -110,6 +187,18 @@ def step (s : Sess) (c : Cmd) : Sess × String × String :=
     -- the harness allocator refuses requests above 2^40 bytes ("absurd") without counting a refusal
     let absurd := !dflt && size ≤ Spec.pageLimit && size + pageInfoSize > 2 ^ 40
     let m := if absurd && c.sched.isEmpty then s.mem.begin [false, true] else m
+    let sparse := (c.str "obs").getD "full" == "sparse"
+    if (c.str "phys").getD "full" == "quiet" then
+      let (st, a, m) := DynamicPool.Acct.new size fixed packed ab triple m
+      let m := if absurd && c.sched.isEmpty then { m with nrefused := 0 } else m
+      let sst : Stat := if size > Spec.pageLimit then .errInvalidCapacity else if c.fired > 0 then .errAlloc else .ok
+      let s' : Sess := { acct := a, mem := m, exp, dflt, sparse }
+      match a with
+      | some a =>
+        let l := linesA (!sparse) (fmtStat sst) (fmtStat st) s' a
+        (s', l.1, l.2)
+      | none => (s', s!"S {fmtStat sst}", s!"M {fmtStat st} | - | {fmtMem m} | {fmtFlags true m}")
+    else
     let (st, r, m) := DynamicPool.new size fixed packed ab freshByte triple m
     let m := if absurd && c.sched.isEmpty then { m with nrefused := 0 } else m
     let (sst, sp) := if size > Spec.pageLimit then (Stat.errInvalidCapacity, none)
@@ -118,6 +207,9 @@ def step (s : Sess) (c : Cmd) : Sess × String × String :=
     let s' : Sess := { model := r, spec := sp, mem := m, exp, dflt, sparse := (c.str "obs").getD "full" == "sparse" }
     (s', lineS (fmtStat sst) s', lineM (fmtStat st) s')
   | _ =>
+  match s.acct with
+  | some a => stepQuiet s c a m
+  | none =>
   match s.model, s.spec with
   | some r, some f =>
     let grow := growF s.exp
